@@ -11,11 +11,11 @@ add("C04", "exploration",
     "exhaustive enumeration + property-based testing (proptest) against a reference implementation", "DESIGN.md §5 C04")
 
 add("C02", "exploration",
-    "Seeded proptest search over field-value assignments (boundary, top-bit, per-byte-distinct, raw) for 18 structure types x 4 encodings x fixed/run-time specs, judged against an independent ELF writer (inverse oracle) whose layout is checked against <elf.h>; the 2^16 domain of the derived one-/two-byte accessors is enumerated exhaustively; further sub-checks decode note headers through NoteIterator (the crate's NoteHeader is private), the crate-private version link fields through where the iterators go, and the packed version index at its use site (get_requirement/get_definition with the hidden bit; several symbols of one version resolved on ONE table handle in a generated order, so a memo cannot leak one symbol's hidden bit into another's answer); last/count/nth run on a one-entry table followed by a partial entry. Comparisons are field by field (never through the crate's own PartialEq) and buffers sit at every address residue. Random+boundary search is the right level: each field is decoded independently, so a wrong width/extension/mask/order shows on a large share of cases.",
+    "Seeded proptest search over field-value assignments (boundary, top-bit, per-byte-distinct, raw) for 18 structure types x 4 encodings x fixed/run-time specs, judged against an independent ELF writer (inverse oracle) whose layout is checked against <elf.h>; the 2^16 domain of the derived one-/two-byte accessors is enumerated exhaustively; further sub-checks decode note headers through NoteIterator (the crate's NoteHeader is private), the crate-private version link fields through where the iterators go, and the packed version index at its use site (get_requirement/get_definition with the hidden bit; several symbols of one version resolved on ONE table handle in a generated order, so a memo cannot leak one symbol's hidden bit into another's answer); last/count/nth run on a one-entry table followed by a partial entry, and next-then-nth on a two-entry table. Comparisons are field by field (never through the crate's own PartialEq) and buffers sit at every address residue. Random+boundary search is the right level: each field is decoded independently, so a wrong width/extension/mask/order shows on a large share of cases.",
     "Trusts the writer (cross-checked field by field against glibc <elf.h> offsets at start-up) and the ABI macro transcriptions (ELF32_R_*, ELF64_R_*, ELF_ST_*).",
     "property-based testing (proptest) with an inverse (encoder) oracle + exhaustive enumeration of 2^16 accessor inputs", "DESIGN.md §5 C02")
 add("C09", "exploration",
-    "Seeded proptest search over (entry type, class, order, n<=40 writer-encoded entries, ragged tails of every residue, access scripts incl. indices at len, len+1, k*2^32+i and near usize::MAX whose byte offset wraps, interleaved iterators, and the provided Iterator methods nth/skip/step_by/count/last/fuse on fresh and partly consumed iterators); model oracle len=floor(bytes/ABI entsize); tables at every address residue, the size_hint contract, direct calls on the concrete relocation iterator types, field-by-field comparison (never the crate's own PartialEq); a second sub-check uses tables of 65 534..200 000 entries; a third (in_file) applies the contract to every table the file-level accessors of ElfBytes and ElfStream hand out on generated/mutated files (tables that are windows of a larger buffer: get(len), get(len+1..), get(2^32|len) must fail) and compares every SHT_REL/SHT_RELA section through ElfBytes and through ElfStream over a short-reading, interrupting reader with a reference decoding of its whole entries.",
+    "Seeded proptest search over (entry type, class, order, n<=40 writer-encoded entries, ragged tails of every residue, access scripts incl. indices at len, len+1, k*2^32+i and near usize::MAX whose byte offset wraps, interleaved iterators, and the provided Iterator methods nth/skip/step_by/count/last/fuse on fresh and partly consumed iterators); model oracle len=floor(bytes/ABI entsize); tables at every address residue, the size_hint contract, direct calls on the concrete relocation iterator types, field-by-field comparison (never the crate's own PartialEq); a second sub-check uses tables of 65 534..200 000 entries; a third (in_file) applies the contract to every table the file-level accessors of ElfBytes and ElfStream hand out on generated/mutated files (tables that are windows of a larger buffer: get(len), get(len+1..), get(2^32|len) must fail) and compares every SHT_REL/SHT_RELA section through ElfBytes and through ElfStream over a short-reading, interrupting reader with a reference decoding of its whole entries; a fourth (beyond_4gib) lays every entry type in both classes over a 4 GiB+64 byte buffer and compares get(i) around byte 2^32 with parse_at.",
     "Trusts the ABI entry sizes (from <elf.h>) and the writer.",
     "model-based property testing (proptest): access scripts against a floor(len/entsize) model and encoder ground truth", "DESIGN.md §5 C09")
 add("C15", "exploration",
@@ -32,11 +32,11 @@ add("C12", "exploration",
     "Trusts the independent .hash builder and the transcription of the gABI elf_hash figure.",
     "property-based testing (proptest): inverse oracle (table builder) + linear-scan reference + corruption for soundness; exhaustive enumeration for short hash inputs", "DESIGN.md §5 C12")
 add("C13", "exploration",
-    "Seeded proptest search over version models (files x aux records, definitions x names, versym arrays with hidden/unknown/local/global entries) laid out by an independent builder in random forward-linked, interleaved, gapped record orders; every symbol index is queried through the stand-alone table, ElfBytes and ElfStream and compared with the model; some models list the reserved indexes 0/1, some files exceed 1 MiB, are padded so that the distance from a version section to EOF is a multiple of 2^16 records, or have about 0xff00 sections.",
+    "Seeded proptest search over version models (files x aux records, definitions x names, versym arrays with hidden/unknown/local/global entries) laid out by an independent builder in random forward-linked, interleaved, gapped record orders; every symbol index is queried through the stand-alone table, ElfBytes and ElfStream and compared with the model; some models list the reserved indexes 0/1, some files exceed 1 MiB, are padded so that the distance from a version section to EOF is a multiple of 2^16 records, or have about 0xff00 sections; half of the files name a class-sized .dynsym through .gnu.version's sh_link; nth(k) on fresh name and auxiliary iterators must equal the k-th item of repeated next().",
     "Trusts the version-graph builder (GNU symbol-versioning layout) and the file builder; well-formedness as scoped in the statement.",
     "property-based testing (proptest) with an inverse oracle: version-graph model -> section bytes -> queries compared with the model", "DESIGN.md §5 C13")
 add("C14", "exploration",
-    "Seeded proptest search over note sequences (sizes of every residue, GNU typed notes, name shapes), alignments incl. non-powers of two and huge values, both byte orders and classes, exact/garbage/truncated/corrupted tails, three access paths plus ElfStream over short-reading/interrupting readers with one transient I/O failure and a retry (first two successful answers must equal the slice parser's notes); judged against an independent reference walker with pointer-exact name/desc ranges; nth/skip/count/last/step_by/size_hint on fresh and partly consumed iterators must agree with repeated next().",
+    "Seeded proptest search over note sequences (sizes of every residue, GNU typed notes, name shapes), alignments incl. non-powers of two and huge values, both byte orders and classes, exact/garbage/truncated/corrupted tails, three access paths (segments also over a SHT_NOTE section whose own alignment differs from p_align) plus ElfStream over short-reading/interrupting readers with one transient I/O failure and a retry (first two successful answers must equal the slice parser's notes); judged against an independent reference walker with pointer-exact name/desc ranges; nth/skip/count/last/step_by/size_hint on fresh and partly consumed iterators must agree with repeated next().",
     "Trusts the 40-line reference walker; ambiguous tails (empty descriptor starting in padding beyond the data) are excluded and counted.",
     "property-based testing (proptest) against a reference implementation (note walker)", "DESIGN.md §5 C14")
 
@@ -46,7 +46,7 @@ add("C19", "exploration",
     "exhaustive enumeration with a differential oracle (reference headers evaluated by the C compiler)", "DESIGN.md §5 C19")
 
 add("C01", "exploration",
-    "Seeded proptest search over (input bytes x walker arguments): structured rich files with boundary-value header overrides and body corruption (incl. objects described by their dynamic table: DT_SYMTAB/DT_STRTAB/DT_HASH/DT_VERSYM/... holding the run-time addresses of the file's own sections under 1..3, rarely 74+, PT_LOAD pieces, with or without section headers; large version tables; foreign section types; both header tables at one offset), linker-produced samples with field-level overrides/splices/truncations, raw bytes; an allocation-free walker calls every public entry point of the no_std core, incl. the stand-alone parsers on arbitrary sub-slices with offsets up to usize::MAX, alignments up to 2^64-1 and counts up to u64::MAX, under overflow checks and debug assertions; parse_ident is enumerated over every buffer length 0..20. Oracle = no panic (validity monitor); the walker also formats every public type with Debug, drives every iterator through the std adaptors and through direct calls on the concrete iterator types, and asks by-name queries built from the file's own names. The thorough tier adds a coverage-guided libFuzzer campaign over the same oracle.",
+    "Seeded proptest search over (input bytes x walker arguments): structured rich files with boundary-value header overrides and body corruption (incl. objects described by their dynamic table: DT_SYMTAB/DT_STRTAB/DT_HASH/DT_VERSYM/... holding the run-time addresses of the file's own sections under 1..3, rarely 74+, PT_LOAD pieces, with or without section headers; large version tables; foreign section types; both header tables at one offset), linker-produced samples with field-level overrides/splices/truncations, raw bytes; an allocation-free walker calls every public entry point of the no_std core, incl. the stand-alone parsers on arbitrary sub-slices with offsets up to usize::MAX, alignments up to 2^64-1 and counts up to u64::MAX, under overflow checks and debug assertions; parse_ident is enumerated over every buffer length 0..20. Oracle = no panic (validity monitor); the walker also formats every public type with Debug, drives every iterator through the std adaptors and through direct calls on the concrete iterator types, and asks by-name queries built from the file's own names (and 70 more on the same handle), and formats every note it is handed. The thorough tier adds a coverage-guided libFuzzer campaign over the same oracle.",
     "A panic is caught with catch_unwind; an abort would end the checker with exit 2. 64-bit host only.",
     "property-based testing (proptest) + coverage-guided fuzzing (libFuzzer) with a no-panic monitor; exhaustive enumeration of short ident buffers", "DESIGN.md §5 C01")
 add("C06", "exploration",
@@ -60,7 +60,7 @@ add("C16", "exploration",
     "property-based testing (proptest) with item-count invariants and a hang watchdog; coverage-guided fuzzing (libFuzzer) in the thorough tier", "DESIGN.md §5 C16")
 
 add("C10", "exploration",
-    "Exhaustive enumeration of all 256 values of EI_DATA, EI_CLASS and EI_VERSION and of the single-byte magic corruptions on 8 base files x 4 specs x 3 entry points with the expected error (kind and carried bytes) as oracle; plus seeded proptest search over generated files comparing the full query-digest vector under AnyEndian with the matching fixed spec (differential oracle) and requiring the other fixed spec to reject; UnsupportedElfEndianness may only ever come from an EI_DATA byte outside the spec's set, whatever the rest of the header holds.",
+    "Exhaustive enumeration of all 256 values of EI_DATA, EI_CLASS and EI_VERSION and of the single-byte magic corruptions on 8 base files x 4 specs x 3 entry points (streams over readers with short reads of 1/7/15 bytes and Interrupted every third read) with the expected error (kind and carried bytes) as oracle; plus seeded proptest search over generated files comparing the full query-digest vector under AnyEndian with the matching fixed spec (differential oracle) and requiring the other fixed spec to reject; UnsupportedElfEndianness may only ever come from an EI_DATA byte outside the spec's set, whatever the rest of the header holds.",
     "Combinations with more than one defect are skipped (counted); little-endian host for the NativeEndian clause.",
     "exhaustive enumeration with an expected-error oracle + differential property-based testing (proptest) AnyEndian vs fixed spec", "DESIGN.md §5 C10")
 add("C18", "fault_enumeration",
@@ -73,16 +73,16 @@ add("C03", "exploration",
     "Trusts the file builder's ground truth and the NUL-scan / note reference walkers for sub-ranges.",
     "property-based testing (proptest) with an inverse oracle (file builder ground truth) and pointer-identity checks", "DESIGN.md §5 C03")
 add("C05", "exploration",
-    "Seeded proptest search over generated files with section counts crossing 0xff00 and program header counts crossing 0xffff (real 4 MiB tables and 'unnecessary' uses of the shdr[0] escape hatches), shstrndx via SHN_XINDEX, tables anywhere incl. touching EOF or cut short, every wrong entsize, offsets forced to 0, wrong sh_entsize on symtab/dynsym/versym/dynamic (also through find_common_data, also with a usable PT_DYNAMIC next to the damaged section), any declared count through extended numbering (incl. counts whose product with the entry size wraps around 2^64), streams that cannot seek from their end; oracle = the statement's rule evaluated by an independent reader on the bytes written; both parsers.",
+    "Seeded proptest search over generated files with section counts crossing 0xff00 and program header counts crossing 0xffff (real 4 MiB tables and 'unnecessary' uses of the shdr[0] escape hatches), shstrndx via SHN_XINDEX, tables anywhere incl. touching EOF or cut short, every wrong entsize, offsets forced to 0, wrong sh_entsize on symtab/dynsym/versym/dynamic (also through find_common_data, also with a usable PT_DYNAMIC next to the damaged section), any declared count through extended numbering (incl. counts whose product with the entry size wraps around 2^64), streams that cannot seek from their end, streams with short reads and Interrupted during open; oracle = the statement's rule evaluated by an independent reader on the bytes written; both parsers.",
     "Trusts the independent header reader and the builder; PN_XNUM without a section table is skipped as outside the statement.",
     "property-based testing (proptest) with an inverse oracle (ground-truth layout) and an executable statement of the location rule", "DESIGN.md §5 C05")
 add("C20", "exploration",
-    "Seeded proptest search over generated objects (each kind present/absent independently, shuffled section order, name pool of prefixes/suffixes/duplicates/non-UTF-8/empty names, sh_link to any section, stripped twins, arbitrary flags and sh_entsize on filler sections, compressed relocation sections, relocation sections ending in a partial entry (the iterators' own last()/count() and dynamic()'s are compared with the model on both parsers), dynamic tables that describe a symbol table via DT_SYMTAB/DT_STRTAB inside a PT_LOAD, rarely > 0xffff sections); a second sub-check damages one or two header fields of the common sections and requires the one-pass discovery and the targeted accessors to refuse or accept together; differential oracle between access paths (find_common_data vs targeted accessors vs tables rebuilt from section_data, by-name lookup vs manual scan, typed views vs encoded model, .dynamic vs PT_DYNAMIC of the twin), both parsers.",
+    "Seeded proptest search over generated objects (each kind present/absent independently, shuffled section order, name pool of prefixes/suffixes/duplicates/non-UTF-8/empty names, sh_link to any section, stripped twins, arbitrary flags and sh_entsize on filler sections, compressed relocation sections, relocation sections ending in a partial entry (the iterators' own last()/count()/next-then-nth and dynamic()'s are compared with the model on both parsers), dynamic tables that describe a symbol table via DT_SYMTAB/DT_STRTAB inside a PT_LOAD, rarely > 0xffff sections); a second sub-check damages one or two header fields of the common sections and requires the one-pass discovery and the targeted accessors to refuse or accept together; differential oracle between access paths (find_common_data vs targeted accessors vs tables rebuilt from section_data, by-name lookup vs manual scan, typed views vs encoded model, .dynamic vs PT_DYNAMIC of the twin), both parsers.",
     "Trusts the object builder's model (encoded entries) and the reference walkers; wrong-type views only need to be refused.",
     "differential property-based testing (proptest) between alternative access paths, with encoder ground truth", "DESIGN.md §5 C20")
 
 add("C07", "exploration",
-    "Seeded proptest search over (file bytes: generated/corrupted/sample/raw) x (operation histories of up to 40 stream calls with repetition, incl. fabricated headers whose ranges share a start or an end and recur) x (readers delivering 1..n-byte chunks and Interrupted errors, handed over with the cursor at 0 or elsewhere, in a fifth of the cases failing once with a transient hard error; by-name queries derived from the file's own name table incl. queries with an interior NUL; one generated file in 512 with about 0xff00 filler sections in front); differential oracle = the slice parser on the same bytes (open coincidence, identical headers, per-op digest equality, exact Ok/Err coincidence for the calls the statement lists, every earlier op re-asked at random). The thorough tier adds a libFuzzer campaign over the same oracle.",
+    "Seeded proptest search over (file bytes: generated/corrupted/sample/raw) x (operation histories of up to 40 stream calls with repetition, incl. fabricated headers whose ranges share a start or an end and recur) x (readers delivering 1..n-byte chunks and Interrupted errors, handed over with the cursor at 0 or elsewhere, in a fifth of the cases failing once with a transient hard error; by-name queries derived from the file's own name table incl. queries with an interior NUL; one generated file in 512 with about 0xff00 filler sections in front; one case in about 16 000 an object whose .symtab links to a 16..18 MiB string table); differential oracle = the slice parser on the same bytes (open coincidence, identical headers, per-op digest equality, exact Ok/Err coincidence for the calls the statement lists, every earlier op re-asked at random). The thorough tier adds a libFuzzer campaign over the same oracle.",
     "Scope exactly as the statement: ops on SHF_COMPRESSED sections and files with a present-but-empty section table are skipped and counted.",
     "differential, history-based property testing (proptest; ops as vec + interpreter) stream parser vs slice parser; libFuzzer in the thorough tier", "DESIGN.md §5 C07")
 add("C08", "exploration",
